@@ -28,7 +28,7 @@ ANCHORS = ["AND._evaluate__", "Union._evaluate__", "ElseIf._evaluate__", "Not._e
            "QueryObjectDescriptor.evaluate_selected_variables", "QueryObjectDescriptor.get_constrained_values"]
 
 FAMILIES = [("core", 30), ("rich", 25), ("flat", 8), ("sub", 6), ("E1", 6), ("E2", 5), ("forall", 6),
-            ("forall0", 3), ("msb", 6), ("msu", 2), ("core_ne", 5), ("fnfalsy", 1), ("forallz", 1), ("E2z", 1), ("porder", 4), ("scalar", 2), ("scalar0", 3), ("subscalar", 3)]
+            ("forall0", 3), ("msb", 6), ("msu", 2), ("core_ne", 5), ("fnfalsy", 1), ("forallz", 1), ("E2z", 1), ("porder", 4), ("scalar", 2), ("scalar0", 3), ("subscalar", 3), ("qnest", 7), ("qreuse", 2)]
 
 
 def plan(tier):
@@ -79,6 +79,10 @@ def gen_family(rng, fam):
         return GEN.gen_forall(rng, falsy_lit=True)
     if fam == "E2z":
         return GEN.gen_exists(rng, "E2", falsy_lit=True)
+    if fam == "qnest":
+        return GEN.gen_quantifier_nest(rng)
+    if fam == "qreuse":
+        return GEN.gen_quantifier_nest(rng, reuse=True)
     if fam == "msb":
         return GEN.gen_multiselect(rng, True)
     if fam == "msu":
@@ -214,29 +218,71 @@ def _quantifier_info(spec, m, objs):
         T = getattr(m, v["type"])
         return not any(isinstance(objs[i], T) for i in v["dom"])
 
-    def walk(c, neg):
+    def quantifier(k, c, negated, bound):
+        # a negation written directly on a quantifier is rewritten: not exists -> for_all, not for_all -> exists
+        eff = k if not negated else ("forall" if k == "exists" else "exists")
+        free = G.closure_vars(G.cond_vars(c[2]), spec) - {c[1]}
+        free = {n for n in free if n in base}
+        # the de-duplication by the value of the quantified variable only loses something while another variable
+        # of the condition is still unbound (one evaluation of the operator then stands for several bindings)
+        if eff == "exists" and free - bound:
+            info["exists_free"] = True
+        if rng_empty(c[1]):
+            info["empty_quantified_range"] = True
+        if k == "exists" and negated and not free:
+            info["neg_E1"] = True
+        walk(["not", c[2]] if negated else c[2], bound)
+
+    def walk(c, bound):
+        """bound: the variables that an earlier conjunct has surely bound when this node is evaluated"""
         k = c[0]
         if k in ("and", "or"):
-            walk(c[1], neg)
-            walk(c[2], neg)
+            # a negation above and_ / or_ stays a Not node: the operands are evaluated as they are written
+            walk(c[1], bound)
+            walk(c[2], bound | (_surely_bound(c[1], spec) if k == "and" else set()))
         elif k == "not":
-            walk(c[1], not neg)
+            if c[1][0] in ("exists", "forall"):
+                quantifier(c[1][0], c[1], True, bound)
+            elif c[1][0] == "not":
+                walk(c[1][1], bound)        # a quantifier negated twice is rewritten twice
+            else:
+                walk(c[1], bound)
         elif k in ("exists", "forall"):
-            # after krrood's inversion rules: not exists -> for_all, not for_all -> exists
-            eff = k if not neg else ("forall" if k == "exists" else "exists")
-            free = G.closure_vars(G.cond_vars(c[2]), spec) - {c[1]}
-            free = {n for n in free if n in base}
-            if eff == "exists" and free:
-                info["exists_free"] = True
-            if rng_empty(c[1]):
-                info["empty_quantified_range"] = True
-            if k == "exists" and neg and not free:
-                info["neg_E1"] = True
-            walk(c[2], False)
+            quantifier(k, c, False, bound)
+
+    if spec.get("cond"):
+        walk(spec["cond"], set())
+    return info
+
+
+def _exists_leaves_variable_bound(spec):
+    """an exists over v in the left operand of an and_ and another quantifier over the same v in its right operand: the
+    witness the exists found stays in the bindings and the later quantifier ranges over that one value only (an or_
+    hands the bindings of its left side on only when that side holds, and then does not evaluate its right side)"""
+    found = []
+
+    def walk(c, negated):
+        """-> (variables of effective exists operators, variables of all quantifiers) below c"""
+        k = c[0]
+        if k in ("and", "or"):
+            le, lq = walk(c[1], False)
+            re_, rq = walk(c[2], False)
+            if k == "and" and le & rq:
+                found.append(le & rq)
+            return le | re_, lq | rq
+        if k == "not":
+            if c[1][0] in ("exists", "forall"):
+                return walk(c[1], not negated)
+            return walk(c[1], False)
+        if k in ("exists", "forall"):
+            eff = k if not negated else ("forall" if k == "exists" else "exists")
+            ie, iq = walk(c[2], False)
+            return ie | ({c[1]} if eff == "exists" else set()), iq | {c[1]}
+        return set(), set()
 
     if spec.get("cond"):
         walk(spec["cond"], False)
-    return info
+    return bool(found)
 
 
 def _surely_bound(c, spec):
@@ -245,7 +291,19 @@ def _surely_bound(c, spec):
         return _surely_bound(c[1], spec) | _surely_bound(c[2], spec)
     if k == "or":
         return _surely_bound(c[1], spec) & _surely_bound(c[2], spec)
-    if k in ("not", "exists", "forall"):
+    if k == "not":
+        # an atom binds its variables whether it is negated or not; connectives swap under the negation
+        inner = c[1]
+        if inner[0] == "and":
+            return _surely_bound(["not", inner[1]], spec) & _surely_bound(["not", inner[2]], spec)
+        if inner[0] == "or":
+            return _surely_bound(["not", inner[1]], spec) | _surely_bound(["not", inner[2]], spec)
+        if inner[0] == "not":
+            return _surely_bound(inner[1], spec)
+        if inner[0] in ("exists", "forall"):
+            return set()
+        return G.closure_vars(G.cond_vars(inner), spec)
+    if k in ("exists", "forall"):
         return set()
     return G.closure_vars(G.cond_vars(c), spec)
 
@@ -279,6 +337,8 @@ def classify(spec, m, objs, got, exp, err):
         return "neg-over-union"
     if qi["exists_free"] and missing and not extra:
         return "exists-dedup"
+    if _exists_leaves_variable_bound(spec):
+        return "exists-leaves-its-variable-bound"
     if extra and not missing and _unbound_multiselect(spec):
         return "select-unbound-cross-product"
     for d in spec.get("derived", []):
@@ -360,6 +420,14 @@ def witnesses():
         "neg-over-union": _w(["not", ["or", xa0, ya0]], [["var", "x"]], [X, Y]),
         "short-circuit-empty-domain": _w(["or", xa0, ya0], [["var", "x"]], [X, Y0]),
         "select-unbound-cross-product": _w(None, [["var", "x"], ["attr", ["var", "x"], "name"]], [X]),
+        "exists-leaves-its-variable-bound": _w(["and", ["cmp", ">=", ["attr", ["var", "y"], "a"], ["lit", 0]],
+                                                 ["and", ["exists", "x", ["cmp", "==", ["attr", ["var", "y"], "a"], ["attr", ["var", "x"], "a"]]],
+                                                  ["forall", "x", ["cmp", "==", ["attr", ["var", "y"], "a"], ["attr", ["var", "x"], "a"]]]]],
+                                                [["var", "y"]], [X, Y]),
+        "quantifier-yields-nothing-when-false": _w(["and", ["cmp", ">=", ["attr", ["var", "y"], "a"], ["lit", 0]],
+                                                    ["or", ["forall", "x", ["cmp", "<", ["attr", ["var", "y"], "a"], ["attr", ["var", "x"], "a"]]],
+                                                     ["forall", "x", ["cmp", ">=", ["attr", ["var", "y"], "a"], ["attr", ["var", "x"], "a"]]]]],
+                                                   [["var", "y"]], [X, Y]),
         "symbolic-call-argument-not-evaluated": _w(["cmp", "==", ["call", ["var", "x"], "m", [["attr", ["var", "y"], "a"]]], ["lit", 1]],
                                                    [["var", "x"], ["var", "y"]], [X, Y]),
         "symbolic-index-key-not-evaluated": _w(["cmp", ">=", ["idx", ["attr", ["var", "x"], "d"], ["call", ["var", "y"], "key", []]], ["lit", 1]],
